@@ -340,6 +340,8 @@ def pitch_spelling_to_midi_pitch(step, alter, octave):
 
 
 def midi_pitch_to_pitch_spelling(midi_pitch):
+    # unsigned numpy integers (MIDI bytes) would wrap around below octave 0
+    midi_pitch = int(midi_pitch)
     octave = midi_pitch // 12 - 1
     step, alter = DUMMY_PS_BASE_CLASS[np.mod(midi_pitch, 12)]
     return ensure_pitch_spelling_format(step, alter, octave)
